@@ -253,7 +253,34 @@ func c07Root(p c07p) func() {
 		}()
 		wg.Wait()
 		<-stopped
+		// exactly one answer per accepted batch (C05): the receiver took one value; a second one
+		// would be sitting in the channel now that the engine has stopped gracefully
+		for _, b := range batches {
+			if n := len(b.done); n > 0 {
+				vapi.Fail("C05: batch %s was answered %d time(s) more than once", b.name, n)
+			}
+		}
 	}
+}
+
+// c05Scripted: the scripted caller histories above, registered for C05 as well (the
+// exactly-once oracle at the end of c07Root and deadlock detection for unanswered callers).
+func c05Scripted(tier string) []Scenario {
+	ps := []c07p{
+		{rows: 1, first: "A F", second: "B", gate: "CreateFile", tokens: 2, ib: 1},
+		{rows: 1, first: "A F B F", gate: "CreateFile", tokens: 2, ib: 1},
+	}
+	if tier == "thorough" {
+		ps = append(ps, c07p{rows: 1, first: "A F", second: "B+Flush", gate: "CreateFile", tokens: 2, ib: 2},
+			c07p{rows: 2, first: "A B F", second: "Flush", gate: "Update", tokens: 2, ib: 1},
+			c07p{rows: 1, first: "A F F", second: "B", gate: "CreateFile", tokens: 3, ib: 1},
+			c07p{rows: 1, first: "A E F", second: "B", gate: "Close", tokens: 2, ib: 1})
+	}
+	var out []Scenario
+	for _, p := range ps {
+		out = append(out, Scenario{Prop: "C05", Name: "scripted-" + p.name(), Root: c07Root(p), Horizon: time.Second, Sched: 1})
+	}
+	return out
 }
 
 func init() {
@@ -268,6 +295,8 @@ func init() {
 				{rows: 2, second: "B", gate: "Close", ib: 1},
 				// multi-step histories of one caller around a store that admits one held call at a time
 				{rows: 1, first: "A F B F", gate: "CreateFile", tokens: 2, ib: 1},
+				// a Flush queued behind an in-flight flush while another caller's batch arrives
+				{rows: 1, first: "A F", second: "B", gate: "CreateFile", tokens: 2, ib: 1},
 				// unbuffered done channels: an answer is handed over only when its receiver arrives
 				{rows: 2, second: "B+Flush", ib: 2, unbuf: true},
 				{rows: 0, second: "Flush", ib: 1, unbuf: true},
